@@ -200,6 +200,7 @@ public:
 	Explorer ex;
 	std::string unitName;
 	std::string harnessName;
+	int tier = 0;                 // 0 quick, 1 thorough (also set when replaying)
 	bool failed = false;          // a violation was recorded in the current execution
 	bool tracing = false;
 	std::vector<std::string> trace;
@@ -518,7 +519,7 @@ inline int frameworkMain(int argc, char ** argv, const char * harnessName) {
 	size_t ui = (size_t)atoi(unitSel.c_str());
 	if(ui >= us.size()) { fprintf(stderr, "no such unit\n"); return 3; }
 	Ctx ctx; gctx() = &ctx;
-	ctx.unitName = us[ui].name; ctx.harnessName = harnessName;
+	ctx.unitName = us[ui].name; ctx.harnessName = harnessName; ctx.tier = tier;
 	if(!crumbPath.empty()) ctx.crumb.open(crumbPath.c_str());
 	installWatchdog(&ctx, stall);
 	double t0 = nowSeconds();
